@@ -240,6 +240,14 @@ def check_tetrahedral(run, pkg):
     pairs = []
     NB = D = RV = None
     verdicts = []
+    # a minimum image written out (or moved into a new helper) anywhere in the accumulated terms is decided by the shared
+    # machinery (recorded there, reported by the driver as R-PBC)
+    try:
+        from . import grlib as _gl
+        from ..vg import strip_alloc as _sa
+        _gl.find_inline_image(_sa(acc[0].data["value"]))
+    except Exception:  # noqa
+        pass
     for e in acc:
         v = e.data["value"]
         # ((dot(R[nb[j]], R[nb[k]]) / (d[nb[j]] * d[nb[k]])) + 1/3) ** 2
